@@ -208,9 +208,12 @@ def make(op, nrows):
 
         def history(cid):
             if earlier:
+                saved = cid.data_format._header
+                cid.data_format._header = 0  # the earlier data set had no header rows
                 r = validio.Reader(cid, earlier, on_error="continue")
                 for _ in r.rows():
                     pass  # abandoned: never closed
+                cid.data_format._header = saved
 
         lim = args["limit"] if args.get("has_limit") else None
         with patched(*rf.srows_patches()):
